@@ -313,13 +313,16 @@ class Project:
     def _new_func(self, name, qual, node, m, cls, parent, is_lambda=False):
         fi = FuncInfo(name, qual, node, m, cls, parent, is_lambda)
         # keep the first of equal qualnames (overloads / redefinitions are rare); index all by node
-        q = qual
-        k = 1
-        while q in self.functions:
-            k += 1
-            q = f"{qual}#{k}"
-        fi.qualname = q
-        self.functions[q] = fi
+        # the last definition of a name wins at run time (e.g. the implementation after
+        # @typing.overload stubs): it keeps the plain qualname, earlier ones are renamed #k
+        if qual in self.functions:
+            old = self.functions.pop(qual)
+            k = 1
+            while f"{qual}#{k}" in self.functions:
+                k += 1
+            old.qualname = f"{qual}#{k}"
+            self.functions[old.qualname] = old
+        self.functions[qual] = fi
         self.func_of_node[id(node)] = fi
         m.functions.append(fi)
         return fi
